@@ -16,9 +16,20 @@ EXIT_OK, EXIT_VIOLATION, EXIT_INCONCLUSIVE = 0, 1, 3
 
 
 def _worker(job):
-    modname, case_id, tier, seed, replay_dir = job
+    modname, case_id, tier, seed, replay_dir, case_timeout = job
     os.environ.setdefault("JAX_PLATFORMS", "cpu")
     lines = []
+    import signal
+
+    class _CaseTimeout(BaseException):
+        pass
+
+    def _alarm(signum, frame):
+        raise _CaseTimeout()
+    signal.signal(signal.SIGALRM, _alarm)
+    signal.alarm(int(case_timeout))
+    t_start = time.time()
+    os.environ["VERIF_DEADLINE"] = str(t_start + case_timeout)
 
     def log(s):
         lines.append(s)
@@ -26,10 +37,16 @@ def _worker(job):
     try:
         mod = importlib.import_module(modname)
         res = mod.run_case(case_id, tier=tier, seed=seed, replay_dir=replay_dir, log=log)
+    except _CaseTimeout:
+        res = {"case": str(case_id), "status": "inconclusive", "obligations": [],
+               "notes": [f"case timeout after {case_timeout}s"], "wall_s": round(time.time() - t_start, 1)}
+        print(f"  [{case_id}] TIMEOUT after {case_timeout}s", flush=True)
     except BaseException as ex:  # noqa: BLE001 - a worker must always answer
         res = {"case": str(case_id), "status": "error", "obligations": [],
                "notes": [traceback.format_exc()], "wall_s": 0.0}
         print(f"  [{case_id}] WORKER ERROR {ex!r}", flush=True)
+    finally:
+        signal.alarm(0)
     return res
 
 
@@ -51,6 +68,7 @@ def main():
     ap.add_argument("--only", default=None, help="fnmatch pattern on case ids")
     ap.add_argument("--replay", default=None, help="replay a stored counterexample file against the real code")
     ap.add_argument("--no-evidence", action="store_true")
+    ap.add_argument("--case-timeout", type=int, default=None)
     a = ap.parse_args()
     prop = a.prop.upper()
     modname = f"props.{prop}"
@@ -64,7 +82,8 @@ def main():
     if a.only:
         cases = [c for c in cases if fnmatch.fnmatch(str(c), a.only)]
     replay_dir = os.path.join(HERE, "evidence", "replays", prop)
-    jobs = [(modname, c, a.tier, a.seed, replay_dir) for c in cases]
+    cto = a.case_timeout or (300 if a.tier == "quick" else 2400)
+    jobs = [(modname, c, a.tier, a.seed, replay_dir, cto) for c in cases]
     print(f"== {prop} tier={a.tier} seed={a.seed}: {len(jobs)} cases, probdiffeq from {repo_path}", flush=True)
     results = []
     if a.jobs <= 1 or len(jobs) <= 1:
